@@ -551,7 +551,8 @@ func (r *raft) send(m *pb.Message) {
 			m.Term = new(r.Term)
 		}
 	}
-	if m.GetType() == pb.MsgAppResp || m.GetType() == pb.MsgVoteResp || m.GetType() == pb.MsgPreVoteResp {
+	if m.GetType() == pb.MsgAppResp || m.GetType() == pb.MsgVoteResp || m.GetType() == pb.MsgPreVoteResp ||
+		(m.GetType() == pb.MsgVote && r.raftLog.hasNextOrInProgressUnstableEnts()) {
 		// If async storage writes are enabled, messages added to the msgs slice
 		// are allowed to be sent out before unstable state (e.g. log entry
 		// writes and election votes) have been durably synced to the local
@@ -597,6 +598,18 @@ func (r *raft) send(m *pb.Message) {
 		// because the safety of such behavior has not been formally verified,
 		// we err on the side of safety and omit a `&& !m.Reject` condition
 		// above.
+		//
+		// A MsgVote is a claim about the candidate's log: voters grant it
+		// because that log is at least as up-to-date as theirs. While part of
+		// the log is still unstable the request is therefore held back, too.
+		// Otherwise the candidate could crash, lose the unstable entries
+		// together with the new term, campaign for the same term again with a
+		// shorter log, and be elected by grants that were given to the log it
+		// no longer has - a leader that lacks committed entries. Once the
+		// entries are durable so are the term and the self-vote that follow
+		// them to the append thread, and the term cannot be reused. A request
+		// over a fully stable log is sent right away as before: repeating it
+		// after a restart advertises the same log.
 		r.msgsAfterAppend = append(r.msgsAfterAppend, m)
 		traceSendMessage(r, m)
 	} else {
